@@ -26,6 +26,7 @@ def groups():
     gs = [Group('macro_layout', ['C02', 'C20'], 'class layouts of Token, ParseError, MacroDefinition, ExtractionState', 'layout obligations', _build('layout', layout=True), timeout=300)]
     for fn, real, props in (('mstrToInt', 'strToInt(ExtractionState&, std::string)', ['C20', 'C02']), ('mlookahead', 'lookahead(ExtractionState&)', ['C02']),
                             ('mmatch', 'match(ExtractionState&, Token::Type)', ['C02']), ('mcopy', 'copy(ExtractionState&)', ['C02']),
+                            ('mconv_agree', 'strToInt(ExtractionState&, std::string) / strToIntSilent(std::string): conversion agreement lemma', ['C02']),
                             ('merror', 'error(ExtractionState&, ParseError::Type, std::string)', ['C02'])):
         gs.append(Group('macro_' + fn[1:], props, real + ' (Compiler/src/macro.cpp)', 'c_' + fn, _build(fn), timeout=600))
     return gs
